@@ -1457,9 +1457,80 @@ func (tb *TB) fpOf(f float64, s Sort) *Term {
 	return tb.F64(f)
 }
 
+// ---- structured floats: FpFromBits(sign const | exponent const | fraction symbolic)
+// keep float code with a known exponent entirely in the bit-vector domain.
+
+type fpS struct {
+	neg  bool
+	e    int   // biased exponent, 1..max-1 (normal numbers only)
+	f    *Term // fraction bits
+	ew   int
+	fw   int
+	bias int
+}
+
+func (tb *TB) fpStruct(t *Term) (fpS, bool) {
+	if t.sort.K != SFP {
+		return fpS{}, false
+	}
+	ew, fw, bias := 8, 23, 127
+	if t.sort.W == 64 {
+		ew, fw, bias = 11, 52, 1023
+	}
+	var bitsT *Term
+	switch {
+	case t.op == OpFpFromBits:
+		bitsT = t.args[0]
+	case t.op == OpConst:
+		bitsT = tb.BV(t.val, t.sort.W)
+	default:
+		return fpS{}, false
+	}
+	top := tb.Extract(bitsT, t.sort.W-1, fw)
+	if !top.IsConst() {
+		return fpS{}, false
+	}
+	e := int(top.val & mask(ew))
+	if e == 0 || e == int(mask(ew)) {
+		return fpS{}, false
+	}
+	return fpS{neg: top.val>>uint(ew) != 0, e: e, f: tb.Extract(bitsT, fw-1, 0), ew: ew, fw: fw, bias: bias}, true
+}
+
+func (tb *TB) fpFromStruct(s fpS) *Term {
+	hi := uint64(s.e)
+	if s.neg {
+		hi |= 1 << uint(s.ew)
+	}
+	return tb.FpFromBits(tb.Concat(tb.BV(hi, s.ew+1), s.f))
+}
+
+// pow2 reports whether the constant c is +2^k and returns k.
+func (tb *TB) fpPow2(c *Term) (int, bool) {
+	s, ok := tb.fpStruct(c)
+	if !ok || s.neg || !s.f.IsConst() || s.f.val != 0 {
+		return 0, false
+	}
+	return s.e - s.bias, true
+}
+
 func (tb *TB) FpBin(op Op, a, b *Term) *Term {
 	if a.sort != b.sort {
 		panic("fp sort mismatch")
+	}
+	if (op == OpFpDiv || op == OpFpMul) && b.IsConst() && !a.IsConst() {
+		if k, ok := tb.fpPow2(b); ok {
+			if sa, ok := tb.fpStruct(a); ok {
+				ne := sa.e + k
+				if op == OpFpDiv {
+					ne = sa.e - k
+				}
+				if ne >= 1 && ne < int(mask(sa.ew)) {
+					sa.e = ne
+					return tb.fpFromStruct(sa)
+				}
+			}
+		}
 	}
 	if a.IsConst() && b.IsConst() {
 		if a.sort.W == 32 {
@@ -1513,6 +1584,45 @@ func (tb *TB) FpCmp(op Op, a, b *Term) *Term {
 	if a.sort != b.sort {
 		panic("fp sort mismatch")
 	}
+	if !(a.IsConst() && b.IsConst()) {
+		sa, oka := tb.fpStruct(a)
+		sb, okb := tb.fpStruct(b)
+		// zero constants compare by sign of the other side
+		if oka && b.IsConst() && fpVal(b) == 0 {
+			switch op {
+			case OpFpLt, OpFpLe:
+				return tb.Bool(sa.neg)
+			default:
+				return tb.False
+			}
+		}
+		if okb && a.IsConst() && fpVal(a) == 0 {
+			switch op {
+			case OpFpLt, OpFpLe:
+				return tb.Bool(!sb.neg)
+			default:
+				return tb.False
+			}
+		}
+		if oka && okb && !sa.neg && !sb.neg {
+			if sa.e != sb.e {
+				switch op {
+				case OpFpLt, OpFpLe:
+					return tb.Bool(sa.e < sb.e)
+				default:
+					return tb.False
+				}
+			}
+			switch op {
+			case OpFpLt:
+				return tb.Ult(sa.f, sb.f)
+			case OpFpLe:
+				return tb.Ule(sa.f, sb.f)
+			default:
+				return tb.Eq(sa.f, sb.f)
+			}
+		}
+	}
 	if a.IsConst() && b.IsConst() {
 		x, y := fpVal(a), fpVal(b)
 		switch op {
@@ -1528,6 +1638,9 @@ func (tb *TB) FpCmp(op Op, a, b *Term) *Term {
 }
 
 func (tb *TB) FpIsNaN(a *Term) *Term {
+	if _, ok := tb.fpStruct(a); ok {
+		return tb.False
+	}
 	if a.IsConst() {
 		return tb.Bool(math.IsNaN(fpVal(a)))
 	}
@@ -1552,10 +1665,30 @@ func (tb *TB) FpToFp(a *Term, s Sort) *Term {
 	if a.IsConst() {
 		return tb.fpOf(fpVal(a), s)
 	}
+	if sa, ok := tb.fpStruct(a); ok && a.sort.W == 32 && s.W == 64 {
+		// widening is exact
+		return tb.fpFromStruct(fpS{neg: sa.neg, e: sa.e - 127 + 1023, f: tb.Concat(sa.f, tb.BV(0, 29)), ew: 11, fw: 52, bias: 1023})
+	}
 	return tb.mk(&Term{op: OpFpToFp, sort: s, args: []*Term{a}})
 }
 
 func (tb *TB) FpToBV(a *Term, w int, signed bool) *Term {
+	if sa, ok := tb.fpStruct(a); ok && !sa.neg && !a.IsConst() {
+		p := sa.e - sa.bias
+		if p < 0 {
+			return tb.BV(0, w)
+		}
+		if p < w-1 && p <= sa.fw {
+			// integer part of 1.F * 2^p, truncated toward zero
+			var v *Term
+			if p == 0 {
+				v = tb.BV(1, 1)
+			} else {
+				v = tb.Concat(tb.BV(1, 1), tb.Extract(sa.f, sa.fw-1, sa.fw-p))
+			}
+			return tb.ZeroExt(v, w)
+		}
+	}
 	if a.IsConst() {
 		f := fpVal(a)
 		if signed && f > -9.2e18 && f < 9.2e18 {
@@ -1591,6 +1724,22 @@ func (tb *TB) FpFromBV(a *Term, s Sort, signed bool) *Term {
 func (tb *TB) FpFloor(a *Term) *Term {
 	if a.IsConst() {
 		return tb.fpOf(math.Floor(fpVal(a)), a.sort)
+	}
+	if sa, ok := tb.fpStruct(a); ok && !sa.neg {
+		p := sa.e - sa.bias
+		if p >= sa.fw {
+			return a
+		}
+		if p >= 0 {
+			// clear the fraction bits below the binary point
+			if p == 0 {
+				sa.f = tb.BV(0, sa.fw)
+			} else {
+				sa.f = tb.Concat(tb.Extract(sa.f, sa.fw-1, sa.fw-p), tb.BV(0, sa.fw-p))
+			}
+			return tb.fpFromStruct(sa)
+		}
+		return tb.fpOf(0, a.sort)
 	}
 	return tb.mk(&Term{op: OpFpFloor, sort: a.sort, args: []*Term{a}})
 }
